@@ -27,6 +27,6 @@ for p in props:
                             "level_note": c["note"], "technique": c["technique"]})
     else:
         m["not_applicable"].append({"property_id": pid, "reason": claims["not_applicable"].get(
-            pid, "check not built yet in this round (planned, see DESIGN.md section 6); not claimed until its TLA+ judge and binding exist")})
+            pid, "check not built yet in this round (see DESIGN.md section 5); not claimed until its TLA+ judge and binding exist")})
 json.dump(m, open(os.path.join(V, "MANIFEST.json"), "w"), indent=1)
 print("claimed:", sorted(claims["claimed"]))
